@@ -4,7 +4,7 @@
 id=$1
 git -C /repo apply /tmp/refac/$id/OUT/patch.diff || { echo "patch does not apply"; exit 3; }
 cd /verif
-for c in C01 C02 C03 C04 C05 C06 C07 C08 C09 C10 C11 C12 C13 C14 C15 C16 C17 C18 C20; do
+for c in C01 C02 C03 C04 C05 C06 C07 C08 C09 C10 C11 C12 C13 C14 C15 C16 C17 C18 C20 $2; do
   out=$(./check $c 2>&1); rc=$?
   [ $rc -ne 0 ] && { echo "$c exit=$rc violations=$(echo "$out" | grep -c '^VIOLATION') incomplete=$(echo "$out" | grep -c '^ANALYSIS')"; echo "$out" | grep -v "^VIOLATION\|^KNOWN\|^note" | grep "\[C\|^ANALYSIS" | cut -c1-300 | head -8; }
 done
